@@ -209,6 +209,13 @@ def multi_centre(ctx):
     _multi(ctx, pts, CENTRES + FAR, TIGHT, PC + FAR, np.array([1e5, 2e3]), "far-from-origin")
 
 
+def _dist(points, centre):
+    """|p - c| correctly rounded: exact differences of the doubles and a 40-digit square root (the reference must not
+    share a float64 distance formula with the routine under test)."""
+    mp.mp.dps = 40
+    return np.array([float(mp.sqrt(mp.fsum((mp.mpf(float(a)) - mp.mpf(float(b))) ** 2 for a, b in zip(p, centre)))) for p in points])
+
+
 def _multi(ctx, POINTS, CENTRES, ALPH, PC, PAL, label):
     from grid.coulomb import coulomb_gaussian_p, coulomb_gaussian_s, coulomb_potential
 
@@ -228,9 +235,9 @@ def _multi(ctx, POINTS, CENTRES, ALPH, PC, PAL, label):
             continue
         ref = np.zeros(len(POINTS))
         for c, a, ctr in zip(co, al, cs):
-            ref += c * coulomb_gaussian_s(np.linalg.norm(POINTS - ctr, axis=1), a, normalized=normalized)
+            ref += c * coulomb_gaussian_s(_dist(POINTS, ctr), a, normalized=normalized)
         for c, a, ctr in zip(PCO[:kp], PAL[:kp], PC[:kp]):
-            ref += c * coulomb_gaussian_p(np.linalg.norm(POINTS - ctr, axis=1), a, normalized=normalized)
+            ref += c * coulomb_gaussian_p(_dist(POINTS, ctr), a, normalized=normalized)
         ctx.nontrivial(("multi", label, ks, kp, normalized), section="multi")
         scale = np.abs(ref) + 1e-12 * (np.sum(np.abs(co)) + np.sum(np.abs(PCO[:kp])) + 1)
         if got.shape != (len(POINTS),) or np.any(_gt(np.abs(got - ref), 1e-13 * scale * 10)):
